@@ -67,6 +67,14 @@ def eval_bool(n, lookup):
     if k == "UnaryOperator" and n.op == "!":
         v = eval_bool(n.children[0], lookup)
         return None if v is None else (not v)
+    if k == "BinaryOperator" and n.op in ("==", "!="):
+        l, r = n.children[0].strip(), n.children[1].strip()
+        for x, y in ((l, r), (r, l)):
+            if y.get("nullc") or y.kind == "CXXNullPtrLiteralExpr" or (y.kind == "IntegerLiteral" and y.cv() == 0 and (x.get("t") or "").endswith("*")):
+                v = lookup(x)
+                if v is None:
+                    return None
+                return (not v) if n.op == "==" else bool(v)
     if k == "BinaryOperator" and n.op in ("&&", "||"):
         a = eval_bool(n.children[0], lookup)
         b = eval_bool(n.children[1], lookup)
@@ -115,6 +123,13 @@ def refine_bool(n, truth, lookup, assume):
             if vb is False:
                 return refine_bool(a, True, lookup, assume)
             return True
+    if k == "BinaryOperator" and n.op in ("==", "!="):
+        l, r = n.children[0].strip(), n.children[1].strip()
+        for x, y in ((l, r), (r, l)):
+            if y.get("nullc") or y.kind == "CXXNullPtrLiteralExpr":
+                # x == nullptr  <=>  !x
+                assume(x, (n.op == "!=") == truth)
+                return True
     assume(n, truth)
     return True
 
@@ -153,3 +168,169 @@ def facts_at(fn, node_id):
     if node_id not in pos:
         return []
     return must_facts(fn, pos[node_id][0])
+
+
+# ---- natural loops and induction variables (loop-form agnostic: for / while / do / goto) -------------------
+
+class NLoop:
+    def __init__(self, fn, header):
+        self.fn = fn
+        self.header = header
+        self.body = {header}
+        self.latches = set()
+
+    def contains_block(self, b):
+        return b in self.body
+
+    def contains(self, n):
+        pos = self.fn.positions()
+        return n.id in pos and pos[n.id][0] in self.body
+
+    @property
+    def cond(self):
+        """The condition that decides between staying in and leaving the loop: the terminator condition of the
+        header if it has an exit edge, else of the first body block with an exit edge."""
+        for b in [self.header] + sorted(self.body - {self.header}, reverse=True):
+            blk = self.fn.blocks[b]
+            if blk.cond is not None and any(s not in self.body for s in blk.live_succs()):
+                c = self.fn.node(blk.cond)
+                if c.strip().cv() is None:
+                    return c
+        return None
+
+
+def natural_loops(fn):
+    dom = fn.dominators()
+    rb = fn.reachable_blocks()
+    loops = {}
+    for b in rb:
+        for s in fn.blocks[b].live_succs():
+            if s in dom.get(b, ()):
+                lp = loops.setdefault(s, NLoop(fn, s))
+                lp.latches.add(b)
+                st = [b]
+                while st:
+                    x = st.pop()
+                    if x in lp.body:
+                        continue
+                    lp.body.add(x)
+                    st.extend(p for p in fn.blocks[x].preds if p in rb)
+    return sorted(loops.values(), key=lambda l: -l.header)
+
+
+def _var_of(n):
+    n = n.strip()
+    if n.kind == "DeclRefExpr" and n.get("local"):
+        return n.d["d"]
+    return None
+
+
+def induction(fn, lp):
+    """{var did: {'bound': (op, bound node) normalised to `var op bound`, 'steps': [nodes], 'init': node or None}}
+    for variables compared in the loop's controlling condition."""
+    out = {}
+    c = lp.cond
+    if c is None:
+        return out
+    conj = []
+
+    def split(x):
+        x = x.strip()
+        if x.kind == "BinaryOperator" and x.op == "&&":
+            split(x.children[0]); split(x.children[1])
+        else:
+            conj.append(x)
+    split(c)
+    swap = {"<": ">", ">": "<", "<=": ">=", ">=": "<=", "!=": "!=", "==": "=="}
+    for x in conj:
+        if x.kind == "BinaryOperator" and x.op in swap:
+            l, r = x.children
+            vl, vr = _var_of(l), _var_of(r)
+            if vl is not None:
+                out.setdefault(vl, {})["bound"] = (x.op, r)
+            elif vr is not None:
+                out.setdefault(vr, {})["bound"] = (swap[x.op], l)
+        else:
+            v = _var_of(x)
+            if v is not None:
+                out.setdefault(v, {})["bound"] = ("!=0", None)
+    for v, info in out.items():
+        steps, inits = [], []
+        for b in fn.blocks.values():
+            for n in b.nodes():
+                tgt = None
+                if n.kind in ("BinaryOperator", "CompoundAssignOperator") and n.op.endswith("=") and n.op not in ("==", "!=", "<=", ">="):
+                    tgt = _var_of(n.children[0])
+                elif n.kind == "UnaryOperator" and n.op in ("++", "--"):
+                    tgt = _var_of(n.children[0])
+                elif n.kind == "DeclStmt":
+                    for d in n.get("decls", []):
+                        if d["d"] == v and "init" in d:
+                            inits.append((b.id, n, fn.node(d["init"])))
+                    continue
+                if tgt != v:
+                    continue
+                if b.id in lp.body:
+                    steps.append(n)
+                elif n.kind == "BinaryOperator" and n.op == "=":
+                    inits.append((b.id, n, n.children[1]))
+        dom = fn.dominators()
+        good = [(b, n, val) for (b, n, val) in inits if b not in lp.body and (b == lp.header or b in dom.get(lp.header, ()))]
+        info["steps"] = steps
+        # the last dominating definition before the loop
+        init = None
+        for (b, n, val) in good:
+            if init is None or fn.reaches(init[1].id, n.id):
+                init = (b, n, val)
+        info["init"] = init[2] if init else None
+    return out
+
+
+def fact_relation(cond, truth):
+    """Normalise a comparison fact to (left node, op, right node) with op in {<, <=, ==, !=}; None otherwise.
+    `a > b` true becomes (b, <, a); `a < b` false becomes (b, <=, a); leading negations are folded."""
+    c, t = cond.strip(), truth
+    while c.kind == "UnaryOperator" and c.op == "!":
+        c, t = c.children[0].strip(), not t
+    if c.kind != "BinaryOperator" or c.op not in ("<", "<=", ">", ">=", "==", "!="):
+        return None
+    a, b, op = c.children[0], c.children[1], c.op
+    if not t:
+        op = {"<": ">=", "<=": ">", ">": "<=", ">=": "<", "==": "!=", "!=": "=="}[op]
+    if op == ">":
+        return (b, "<", a)
+    if op == ">=":
+        return (b, "<=", a)
+    return (a, op, b)
+
+
+def sem_eval(n, val):
+    """Evaluate a condition under a valuation of its leaves: val(leaf node) -> int (pointers: 0 = null) or None.
+    Handles ! && || and the six comparisons; returns None when a needed leaf is unknown."""
+    n = n.strip()
+    k = n.kind
+    if k == "CXXNullPtrLiteralExpr" or n.get("nullc"):
+        return 0
+    c = n.cv() if k not in ("DeclRefExpr", "MemberExpr") else None
+    if c is not None:
+        return c
+    if k == "UnaryOperator" and n.op == "!":
+        v = sem_eval(n.children[0], val)
+        return None if v is None else int(not v)
+    if k == "BinaryOperator":
+        if n.op in ("&&", "||"):
+            a = sem_eval(n.children[0], val)
+            if a is not None and ((n.op == "&&" and not a) or (n.op == "||" and a)):
+                return int(bool(a))
+            b = sem_eval(n.children[1], val)
+            if a is None or b is None:
+                return None
+            return int(bool(a) and bool(b)) if n.op == "&&" else int(bool(a) or bool(b))
+        if n.op in ("<", "<=", ">", ">=", "==", "!="):
+            a, b = sem_eval(n.children[0], val), sem_eval(n.children[1], val)
+            if a is None or b is None:
+                return None
+            return int({"<": a < b, "<=": a <= b, ">": a > b, ">=": a >= b, "==": a == b, "!=": a != b}[n.op])
+    if k in ("ImplicitCastExpr", "ParenExpr") and n.children:
+        return sem_eval(n.children[0], val)
+    return val(n)
